@@ -89,6 +89,9 @@ func scenarios(tier string) []svc.Scenario {
 		{Name: "bounded-id-range-tag", Program: []string{"import:P1", "addtag:service/r=id:0:3", "import:P2", "import:P3"}},
 		// a client that has opened the event stream and does not read it while 120 events are emitted
 		{Name: "stalled-listener", Program: []string{"import:P1", "addtag:tag/p=cport:1", "listen.stall:l1", "storm:tag/x=60", "import:P2", "listen.close:l1"}},
+		// a chain mark <- tag <- tag in which the last definition names the middle tag in its main query AND from inside a sub-query
+		// (the streams exist when the service starts)
+		{Name: "chain-main-and-subquery-reference", Prebuilt: []int{5}, Program: []string{"addtag:mark/m=id:0,1", "addtag:tag/b=mark:m", "addtag:tag/c=tag:b @p:tag:b id:@p:id@+1", "markdel:mark/m=0", "markadd:mark/m=2"}},
 		{Name: "two-tags", Program: []string{"addtag:tag/p=cport:1", "addtag:tag/d=cdata:foo3", "import:P1", "import:P3"}},
 	}
 	if tier == "thorough" {
